@@ -17,7 +17,6 @@
 (***************************************************************************)
 EXTENDS Term, Json, IOUtils, TLC
 
-Trace == ndJsonDeserialize(IOEnv.TRACE_FILE)
 
 Asgs(e) == IF Len(e.asgs) = 0 THEN AllAsg(e.vars) ELSE {AsgOf(e.asgs[i]) : i \in 1..Len(e.asgs)}
 
@@ -79,6 +78,9 @@ Failing(e) ==
     [] e.k = "truth" -> FailingTruth(e)
     [] e.k = "alpha" -> FailingAlpha(e)
 
-ASSUME \A i \in 1..Len(Trace) : \A c \in Failing(Trace[i]) : PrintT(<<"BAD", i, c>>)
-ASSUME PrintT(<<"DONE", Len(Trace)>>)
+\* NB: the trace is bound by LET inside the ASSUME: a top-level definition would be re-evaluated (the whole
+\* file re-parsed) at every reference Trace[i], making validation quadratic in the shard size.
+ASSUME LET Trace == ndJsonDeserialize(IOEnv.TRACE_FILE) IN
+       /\ \A i \in 1..Len(Trace) : \A c \in Failing(Trace[i]) : PrintT(<<"BAD", i, c>>)
+       /\ PrintT(<<"DONE", Len(Trace)>>)
 =============================================================================
